@@ -179,7 +179,7 @@ pub fn uni_item(sh: &UniShared, k: u64, acc: &mut Acc, note: &dyn Fn(&str)) {
         let sw = TaskSetSwarm::random_wide(&mut in_rng, sh.budget.wide);
         random_taskset(&mut in_rng, &sw)
     };
-    let repr = rng.split("repr").below(5) as u8;
+    let repr = rng.split("repr").below(6) as u8;
     // The divergence limit is drawn once the harness knows the synchronous busy window it
     // observed itself: huge limits are only combined with busy windows the simulation can
     // cover (a 10^5-tick busy window costs seconds of analysis time and cannot be simulated).
